@@ -99,8 +99,9 @@ GenNext == IF k = "gn" THEN GenName ELSE
         sys == <<0, 300, -210, 60>>[((a + b) % 4) + 1]
         zs  == SetToSeq(AllZ)
         one(i, z2) == LET sp == SetToSeq(SpellingsOf(z2))  op == SetToSeq(Ops)[((i + a + b) % Cardinality(Ops)) + 1]
-                          tin == IF (i + 2 * a + b) % 3 = 0 THEN Naive(Wall(t1)) ELSE t1 IN
-                      [op |-> op, t |-> tin, z2 |-> sp[((3 * i + a + 5 * b) % Len(sp)) + 1], sys |-> sys, want |-> Answer(op, tin, z2, sys)]
+                          tin == IF (i + 2 * a + b) % 3 = 0 THEN Naive(Wall(t1)) ELSE t1
+                          spl == sp[((3 * i + a + 5 * (b % 1009)) % Len(sp)) + 1] IN
+                      [op |-> op, t |-> tin, z2 |-> spl, sys |-> sys, want |-> IF Claimed(op, spl) THEN Answer(op, tin, z2, sys) ELSE Undefined3]
         cases == MapS(LAMBDA i : one(i, zs[i]), [i \in 1..Len(zs) |-> i])
                  \o << [op |-> "replace", t |-> t1, z2 |-> <<"none">>, sys |-> sys, want |-> Answer("replace", t1, NoZone, sys)],
                        [op |-> "convert", t |-> t1, z2 |-> <<"none">>, sys |-> sys, want |-> Answer("convert", t1, NoZone, sys)],
